@@ -39,11 +39,13 @@ private theorem recv_safe (x : Str) (hx : cookieSafe x = true) : received x = x 
 
 /-! ## pinning -/
 
-/-- **URL round trip** (discharges `RoundTrip`): for every absolute URL `scheme://host[:port][/path]` with
-    ANY path bytes, `url.Parse(u.String())` has the scheme, host and path of `u`.  For URLs with userinfo,
-    query or fragment `RoundTrip u` stays a hypothesis (decidable by evaluation, exercised by the
-    correspondence run). -/
-theorem C11_url_roundtrip (u : URL) (hu : Plain u) : RoundTrip u := roundTrip_plain u hu
+/-- **URL round trip** (discharges `RoundTrip`): for every server URL of the shape
+    `scheme://[user[:password]@]host[:port][/path][?query]` — lower-case scheme; ANY user / password bytes; host a
+    reg-name or a bracketed IP literal, numeric port; ANY path bytes, with or without a consistent `RawPath`
+    (`/a%2Fb`); any query free of `#` and control bytes; no fragment — `url.Parse(u.String())` has the scheme, host
+    and path of `u`.  (Outside this class — IPv6 zones, fragments, opaque or scheme-less URLs — `RoundTrip u` is
+    decidable by evaluation and exercised by the correspondence run.) -/
+theorem C11_url_roundtrip (u : URL) (hu : Abs u) : RoundTrip u := roundTrip_abs u hu
 
 /-- **cookie wire**: `Request.Cookie(name)` on the echoed `Set-Cookie` pair returns the minted value minus
     the bytes `sanitizeCookieValue` drops; a value made of valid cookie bytes arrives unchanged. -/
@@ -253,16 +255,18 @@ theorem C11_absent_or_malformed (E : Env) (now : Nat) (ss : Session) (urls : Lis
   · intro v h; simp [find, findByURL, h]
   · intro k ttl v h; simp [find, h]
 
-/-- forged: a value that was not minted under the session key opens to nothing; so does one minted under
-    another key -/
+/-- forged: only (an encoding of) a cookie minted under the session key is honoured — whatever `FindURL` accepts
+    opens under `k` and no key tells it apart from a minted cookie (`Cipher.same`: base64 decoding is not strict,
+    so this is not string equality); a cookie minted under another key is not found. -/
 theorem C11_forged (E : Env) (hI : E.cipher.Ideal) (now : Nat) (k ttl : Nat) (urls : List URL) :
-    (∀ v, (∀ n m, v ≠ E.cipher.box k n m) → find E now (.aes k ttl) v urls = none) ∧
+    (∀ v u, find E now (.aes k ttl) v urls = some u →
+      ∃ n m, E.cipher.unbox k v = some m ∧ E.cipher.same v (E.cipher.box k n m)) ∧
     (∀ k' n m, k' ≠ k → find E now (.aes k ttl) (E.cipher.box k' n m) urls = none) := by
   constructor
-  · intro v hv
+  · intro v u hf
     cases hu : E.cipher.unbox k v with
-    | none => simp [find, hu]
-    | some p => obtain ⟨n, e⟩ := hI.authentic k v p hu; exact absurd e (hv n p)
+    | none => simp [find, hu] at hf
+    | some p => obtain ⟨n, e⟩ := hI.authentic k v p hu; exact ⟨n, p, rfl, e⟩
   · intro k' n m hk
     simp [find, hI.key_sep k' k n m hk]
 
@@ -323,6 +327,81 @@ theorem C11_fresh_cookie_pins (E : Env) (ss : Session) (hname : isCookieNameVali
       · simp at h1
   exact C11_pinned_regardless_of_rotation E ss hname t0 now lb2 u hnd hu hg w hw
 
+/-- the explicit hypotheses under which the cookie of a server that LEFT the pool finds nothing: as `Good`, with
+    "no collision with a member" for the hash and "`from` finds nothing either" for a chain (no liveness needed:
+    an expired cookie finds nothing anyway) -/
+def Unfound (E : Env) (t0 now : Nat) (urls : List URL) (s : URL) : Codec → Prop
+  | .raw => RoundTrip s ∧ (render s).all validCookieValueByte = true
+  | .hash salt => (E.hash (salt ++ normalized s)).all validCookieValueByte = true ∧
+      ∀ u ∈ urls, E.hash (salt ++ normalized u) ≠ E.hash (salt ++ normalized s)
+  | .aes _ ttl => E.cipher.Ideal ∧ RoundTrip s ∧ Bytes (render s) ∧ (baseUnixNs + t0 + ttl) / 1000000000 < 2 ^ 63
+  | .fallback frm tgt => Unfound E t0 now urls s tgt ∧
+      find E now frm (received (Sticky.get E t0 tgt s)) urls = none
+
+/-- **stale cookie finds nothing**: the cookie minted for `s`, presented to a pool none of whose members has the
+    key of `s` (it was removed; whatever else changed), makes `FindURL` return nothing — every codec and chain. -/
+theorem C11_stale_none (E : Env) (t0 now : Nat) (urls : List URL) (s : URL)
+    (hgone : ∀ u ∈ urls, u.key ≠ s.key) (cd : Codec) (hg : Unfound E t0 now urls s cd) :
+    find E now cd (received (Sticky.get E t0 cd s)) urls = none := by
+  induction cd with
+  | raw =>
+    have : received (render s) = render s := List.filter_eq_self.mpr (List.all_eq_true.mp hg.2)
+    simp only [Sticky.get, find, this]
+    exact findByURL_gone urls s hg.1 hgone
+  | hash salt =>
+    have : received (E.hash (salt ++ normalized s)) = E.hash (salt ++ normalized s) :=
+      List.filter_eq_self.mpr (List.all_eq_true.mp hg.1)
+    simp only [Sticky.get, find, this]
+    rw [List.find?_eq_none]
+    intro u hu hp
+    have hp' : E.hash (salt ++ normalized s) = E.hash (salt ++ normalized u) := by simpa using hp
+    exact hg.2 u hu hp'.symm
+  | aes k ttl =>
+    obtain ⟨hI, hrt, hb, hfit⟩ := hg
+    have hgoneF := findByURL_gone urls s hrt hgone
+    by_cases httl : 0 < ttl
+    · have hbytes : Bytes (render s ++ '|' :: decimal ((baseUnixNs + t0 + ttl) / 1000000000)) := by
+        intro c hc
+        rcases List.mem_append.mp hc with h | h
+        · exact hb c h
+        · rcases List.mem_cons.mp h with e | h
+          · subst e; decide
+          · have := isDigit_nat c (decimal_digits _ c h); omega
+      simp only [Sticky.get, find, httl, if_true, recv_safe _ (hI.safe k t0 _ hbytes), hI.unbox_box k t0 _ hbytes,
+        checkTTL_minted now ttl _ (render s) httl hfit]
+      by_cases hexp : ((baseUnixNs + now : Nat) : Int) > (((baseUnixNs + t0 + ttl) / 1000000000 : Nat) : Int) * 1000000000
+      · rw [if_pos hexp]
+      · rw [if_neg hexp]; exact hgoneF
+    · have h0 : ttl = 0 := by omega
+      subst h0
+      simp only [Sticky.get, find, Nat.lt_irrefl, if_false, recv_safe _ (hI.safe k t0 _ hb), hI.unbox_box k t0 _ hb,
+        checkTTL, hgoneF]
+  | fallback frm tgt _ iht =>
+    simp only [Sticky.get, find, hg.2, iht hg.1]
+
+/-- **stale cookie ⇒ rebalanced**: a request carrying the cookie issued for a server that is no longer in the pool is
+    balanced exactly like a request without sticky sessions among the current members (`RR.next`), is not rejected
+    while some member has positive weight, goes to a member of positive weight and receives a fresh cookie minted
+    for the server chosen. -/
+theorem C11_stale_rebalanced (E : Env) (ss : Session) (hname : isCookieNameValid ss.name = true) (t0 now : Nat)
+    (lb : LB) (s : URL) (hgone : ∀ u ∈ lb.urls, u.key ≠ s.key) (hg : Unfound E t0 now lb.urls s ss.codec)
+    (w : Str) (hw : setCookieWire ss.name (Sticky.get E t0 ss.codec s) = some w)
+    (hpos : ∃ x ∈ lb.ws, 0 < x) (hit : ∃ j, lb.it = RR.after lb.ws j RR.It.reset) :
+    ∃ i u, (RR.next lb.ws lb.it).1 = .sel i ∧ lb.urls[i]? = some u ∧ 0 < lb.ws.getD i 0 ∧
+      serve E now ss lb (some (echoLine ss.name w)) =
+        ({ lb with it := (RR.next lb.ws lb.it).2 }, .served u (setCookieWire ss.name (Sticky.get E now ss.codec u))) := by
+  apply C11_degrades E now ss lb _ _ hpos hit
+  simp only [setCookieWire, hname, if_true, Option.some.injEq] at hw
+  subst hw
+  simp only [getBackend, readCookie_echo ss.name _ hname]
+  exact C11_stale_none E t0 now lb.urls s hgone ss.codec hg
+
+/-- **no steal, `from` = raw**: `RawValue.FindURL` never claims a value without `:` (a hex hash, a base64 AES cookie)
+    when every member has a scheme — the no-steal conjunct of `Good (.fallback .raw tgt)` for such values. -/
+theorem C11_no_steal_raw (E : Env) (now : Nat) (v : Str) (urls : List URL) (hc : ':' ∉ v)
+    (hs : ∀ u ∈ urls, u.scheme ≠ []) : find E now .raw v urls = none :=
+  findByURL_no_colon v urls hc hs
+
 /-! ## every sequence of pool changes -/
 
 /-- balancer states reachable by any history of `UpsertServer`, `RemoveServer` and requests -/
@@ -379,13 +458,30 @@ def exPool : List URL := [exB, exA]
 def exName : Str := ['a', 'f', 'f']
 def exLB : LB := (LB.empty.upsert exB (some 0)).upsert exA (some 3)
 
--- `exB` is `Plain` (its path holds `;` and `|`); `exA` (userinfo, port, query with `|`, space in the path) is not,
--- its round trip is checked by evaluation
-example : Plain exB :=
+-- both are `Abs`: `exA` has userinfo, a port, a space in the path and `|` in the query; `exB` has `;` and `|` in the path;
+-- `exC` is a bracketed IPv6 host with a `RawPath` (`/a%2Fb`) and a forced empty query
+def exC : URL := { scheme := ['h', 't', 't', 'p'], host := ['[', ':', ':', '1', ']', ':', '8', '0'], path := ['/', 'a', '/', 'b'],
+                   rawPath := ['/', 'a', '%', '2', 'F', 'b'], forceQuery := true }
+example : Abs exA :=
+  { scheme := ⟨'h', ['t', 't', 'p'], rfl, by decide, by decide⟩
+    user := by unfold UserOK Bytes exA; decide
+    host := ⟨['h', '1'], [':', '8', '0'], rfl, Or.inr ⟨['8', '0'], rfl, by decide⟩, Or.inl ⟨by decide, by decide⟩⟩
+    path := Or.inl ⟨rfl, Or.inr rfl, by unfold Bytes exA; decide⟩
+    query := by decide, noOpaq := rfl, noOmit := rfl, noFrag := rfl }
+example : Abs exB :=
   { scheme := ⟨'h', ['t', 't', 'p', 's'], rfl, by decide, by decide⟩
-    host := ⟨['h', '2'], [], rfl, by decide, by decide, Or.inl rfl⟩
-    path := Or.inr rfl, bytes := by decide, noUser := rfl, noOpaq := rfl, noRawPath := rfl, noOmit := rfl,
-    noForce := rfl, noQuery := rfl, noFrag := rfl }
+    user := trivial
+    host := ⟨['h', '2'], [], rfl, Or.inl rfl, Or.inl ⟨by decide, by decide⟩⟩
+    path := Or.inl ⟨rfl, Or.inr rfl, by unfold Bytes exB; decide⟩
+    query := by decide, noOpaq := rfl, noOmit := rfl, noFrag := rfl }
+example : Abs exC :=
+  { scheme := ⟨'h', ['t', 't', 'p'], rfl, by decide, by decide⟩
+    user := trivial
+    host := ⟨['[', ':', ':', '1', ']'], [':', '8', '0'], rfl, Or.inr ⟨['8', '0'], rfl, by decide⟩,
+      Or.inr ⟨[':', ':', '1'], rfl, by decide⟩⟩
+    path := Or.inr ⟨by decide, by decide, by decide, by decide⟩
+    query := by decide, noOpaq := rfl, noOmit := rfl, noFrag := rfl }
+example : render exC = ['h','t','t','p',':','/','/','[',':',':','1',']',':','8','0','/','a','%','2','F','b','?'] := by decide
 example : RoundTrip exA ∧ RoundTrip exB := by decide
 example : render exA = ['h', 't', 't', 'p', ':', '/', '/', 'u', ':', 'p', '@', 'h', '1', ':', '8', '0', '/', 'a', '%', '2', '0', 'b', '?', 'q', '=', '1', '|', '2'] := by decide  -- http://u:p@h1:80/a%20b?q=1|2
 example : (exPool.map URL.key).Nodup ∧ exA ∈ exPool := by decide
@@ -419,11 +515,21 @@ example : serve stdEnv 9 ⟨exName, .hash ['s']⟩ (exLB.upsert exB (some 100)) 
 example : setCookieWire exName (Sticky.get stdEnv 0 .raw exB) = some ['h', 't', 't', 'p', 's', ':', '/', '/', 'h', '2', '/', 'p', 'x', '%', '7', 'C', 'y'] := by decide
 example : getBackend stdEnv 0 ⟨exName, .raw⟩ (some ['a', 'f', 'f', '=', 'h', 't', 't', 'p', 's', ':', '/', '/', 'h', '2', '/', 'p', 'x', '%', '7', 'C', 'y']) exPool = none := by decide
 -- forged / expired / foreign key, with the symbolic cipher
-example : ∀ n m, ['f', 'o', 'r', 'g', 'e', 'd'] ≠ symCipher.box 1 n m := by
-  intro n m h; rw [symCipher_box] at h; cases h
+example : find stdEnv 0 (.aes 1 0) ['f', 'o', 'r', 'g', 'e', 'd'] exPool = none := by decide
 example : 1577836805 * 1000000000 < baseUnixNs + 5000000001 := by decide
 example : find stdEnv 5000000001 (.aes 1 5000000000) (Sticky.get stdEnv 0 (.aes 1 5000000000) exB) exPool = none ∧
     find stdEnv 5000000000 (.aes 1 5000000000) (Sticky.get stdEnv 0 (.aes 1 5000000000) exB) exPool = some exB := by decide
+-- a server that left: `exA` is not in `[exB]`; its cookies (raw, hash, aes, a chain) find nothing there
+example : (∀ u ∈ [exB], u.key ≠ exA.key) ∧ Unfound stdEnv 0 7 [exB] exA (.fallback (.hash ['s']) .raw) :=
+  ⟨by decide, ⟨by decide, by decide⟩, by decide⟩
+example : Unfound stdEnv 0 7 [exB] exA (.hash ['s']) ∧ Unfound stdEnv 0 7 [exB] exA (.aes 1 5000000000) :=
+  ⟨⟨by decide, by decide⟩, symCipher_ideal, by decide, by unfold Bytes; decide, by decide⟩
+-- no-steal for `from` = raw, discharged by `C11_no_steal_raw`: an FNV hex value has no `:`, every member has a scheme
+example : Good stdEnv 0 7 exPool exA (.fallback .raw (.hash ['s'])) := by
+  refine ⟨⟨by decide, by decide⟩, ?_⟩
+  intro u h
+  rw [C11_no_steal_raw stdEnv 7 _ exPool (by decide) (by decide)] at h
+  cases h
 -- degraded request on a reachable balancer with a positive weight
 example : (∃ w ∈ exLB.ws, 0 < w) ∧ ∃ j, exLB.it = RR.after exLB.ws j RR.It.reset := ⟨⟨1, by decide, by decide⟩, 0, rfl⟩
 
